@@ -10,7 +10,7 @@ variable {α : Type} [Add α] [Sub α] [Mul α] [Div α] [Neg α] [LT α] [LE α
   [DecidableLT α] [DecidableLE α] [OfNat α 0] [OfNat α 1] [OfNat α 2] [OfNat α 4] [Fns α]
 
 namespace Proc
-open AGP
+open AGP AGP.Ctl
 
 /-- `len(_allTrials)`: the id the next trial will get (2 before the first iteration: ids 0, 1 are the end points) -/
 def PState.nextId (ps : PState α) : Nat := match ps.m with | none => 2 | some s => s.nextId
